@@ -159,14 +159,14 @@ class CallMixin:
             if items and not any(x[0] == "star" for x in items) and isinstance(idx, int) and -len(items) <= idx < len(items):
                 x = items.pop(idx)
                 d[name] = V(("list", tuple(items)), cur.ty, dep)
-                ev = self.emit(Event("local", "list.pop", cur, const(idx), (), site=self.here(e)))
+                ev = self.emit(Event("local", "list.pop", cur, const(idx), (), {"__var__": const(name)}, site=self.here(e)))
                 return self.lift(x, dep)
-            self.emit(Event("local", "list.pop", cur, const(idx), (), site=self.here(e)))
+            self.emit(Event("local", "list.pop", cur, const(idx), (), {"__var__": const(name)}, site=self.here(e)))
             ety = [t[1] for t in cur.ty if t[0] == "elemty"]
             return V(("popped", cur.t, self.fresh(e)), ety, dep)
         elif op == "remove":
             items = [x for x in items if x != args[0].t]
-        self.emit(Event("local", "list." + op, cur, None, tuple(args), site=self.here(e)))
+        self.emit(Event("local", "list." + op, cur, None, tuple(args), {"__var__": const(name)}, site=self.here(e)))
         d[name] = V(("list", tuple(items)), cur.ty, dep)
         return NONE
 
@@ -826,6 +826,11 @@ class CallMixin:
 
     def bi_isinstance(self, a, cv, node):
         names = self.class_names_of(cv)
+        exc = [t[1] for t in self.ty(a) if isinstance(t, tuple) and t[0] == "excinst"]
+        from .px_core import BUILTIN_EXC_BASES
+        if exc and all(n.startswith("py:") or n in self.M.classes or n in BUILTIN_EXC_BASES for n in names):
+            # a caught exception of a known class against exception classes
+            return const(any(self.exc_is(exc[0], n[3:] if n.startswith("py:") else n) for n in names))
         cl = self.obj_classes(a)
         repo = [n for n in names if n in self.M.classes]
         if cl and all(c in self.M.classes for c in cl):
